@@ -32,6 +32,11 @@ type descriptor struct {
 	ForkEnd int      `json:"forkEnd"` // 0 none; 1 parallel fork, 2 task with two outgoing flows: the FIRST branch goes straight to an end event, the second to a task
 	Actions []action `json:"actions"`
 	Perturb uint64   `json:"perturb"`
+	// SubDead: the last chain runs through an embedded sub-process (one inner
+	// task) that has a second inner start event whose only flow is false - the
+	// instance can only complete if the sub-process notices that this start
+	// event has fired although its token never left it
+	SubDead bool `json:"subDead,omitempty"`
 }
 
 func build(d descriptor) *gen.Graph {
@@ -82,6 +87,22 @@ func build(d descriptor) *gen.Graph {
 			t2 := b.Add(gen.KTask)
 			b.Connect(f, t2)
 			cur = t2
+		}
+		if d.SubDead && i == d.Starts-1 {
+			sub := b.Add(gen.KSub)
+			ib := b.Sub()
+			sub.Inner = ib.G
+			s1 := ib.Add(gen.KStart)
+			it := ib.Add(gen.KTask)
+			e1 := ib.Add(gen.KEnd)
+			ib.Connect(s1, it)
+			ib.Connect(it, e1)
+			s2 := ib.Add(gen.KStart)
+			e2 := ib.Add(gen.KEnd)
+			df := ib.Connect(s2, e2)
+			df.Formal, df.Cond = true, gen.False()
+			b.Connect(cur, sub)
+			cur = sub
 		}
 		var last *gen.Flow
 		if d.Merge {
@@ -342,7 +363,8 @@ func draw(rt *rapid.T) descriptor {
 		maxStarts = 1
 	}
 	d := descriptor{Starts: rapid.IntRange(1, maxStarts).Draw(rt, "starts"), Merge: rapid.Bool().Draw(rt, "merge"), Par: rapid.Bool().Draw(rt, "par"),
-		Perturb: uint64(rapid.IntRange(0, 500).Draw(rt, "perturb")), ForkEnd: rapid.SampledFrom([]int{0, 0, 1, 2}).Draw(rt, "forkEnd")}
+		Perturb: uint64(rapid.IntRange(0, 500).Draw(rt, "perturb")), ForkEnd: rapid.SampledFrom([]int{0, 0, 1, 2}).Draw(rt, "forkEnd"),
+		SubDead: rapid.IntRange(0, 5).Draw(rt, "subDead") == 0}
 	for i := 0; i < d.Starts; i++ {
 		d.Chain = append(d.Chain, rapid.IntRange(-1, 2).Draw(rt, "chain"))
 	}
